@@ -478,6 +478,10 @@ def run_unit(unit):
     res["witness_ok"] = state["witness_ok"]
     res["witness_failed"] = state["witness_failed"]
     res["witness_skipped"] = state["witness_skipped"]
+    if state.get("extra"):
+        res["extra"] = state["extra"]
+    if state.get("witness_retried"):
+        res["witness_retried"] = len(state["witness_retried"])
     if res["verdict"] == "ok":
         if state["violations"]:
             res["verdict"] = "violation"
